@@ -84,7 +84,7 @@ func wellFormed(c Case) bool {
 		if f.File < 0 || f.File >= n || f.Variant < 0 || f.Variant > 2 {
 			return false
 		}
-	case "longline":
+	case "longline", "labelclash":
 		if f.File < 0 || f.File >= n || f.Variant < 0 || f.Variant > 100 {
 			return false
 		}
@@ -194,6 +194,39 @@ func (k *checker) faulty() {
 		if at < len(rows)-1 {
 			v.Label("longline:benchmark_lines_follow")
 		}
+		k.s.ffs.begin(-1, false, false)
+		bd := buildBody(uploadParts(tgt, tag))
+		status, resp = k.s.post(bd.body, len(bd.body), "eof")
+
+	case "labelclash":
+		// A file whose last benchmark carries, as a key=value part of its name, a key that is
+		// also a label of the file: the index holds one value per record and key, so the
+		// database refuses the record - an error that only shows when the queued rows are
+		// written (for a small upload: at commit). Either outcome is acceptable, a partly
+		// committed upload is not.
+		fl := tgt.Files[f.File]
+		key := []string{"goos", "pkg", "commit"}[f.Variant%3]
+		rows := append(append([]Row{}, fl.Rows...), Row{K: 1, A: key, B: "linux"}, Row{K: 0, A: "Clash/" + key + "=linux", B: "1 1 ns/op"})
+		if f.Variant%2 == 1 {
+			rows = append(rows, Row{K: 0, A: "After", B: "1 2 ns/op"})
+		}
+		files := append([]File{}, tgt.Files...)
+		at := len(fl.Rows) + 1
+		fl.Rows = rows
+		files[f.File] = fl
+		tgt.Files = files
+		full = fullFiles(tgt, tag)
+		delivered = full
+		mustFail, eitherOutcome = false, true
+		// (the refusal shows when the queued rows are written: usually at commit, when no file
+		// is being written any more, so every file of the upload may stay in the store)
+		for i := range tgt.Files {
+			allowed[i] = full[i].content
+			if i < f.File {
+				countFile(i, len(tgt.Files[i].Rows))
+			}
+		}
+		countFile(f.File, at)
 		k.s.ffs.begin(-1, false, false)
 		bd := buildBody(uploadParts(tgt, tag))
 		status, resp = k.s.post(bd.body, len(bd.body), "eof")
@@ -510,6 +543,8 @@ func describe(f Fault) string {
 		return fmt.Sprintf("file %d without benchmark lines (variant %d)", f.File, f.Variant)
 	case "longline":
 		return fmt.Sprintf("file %d with a line of more than 64 KiB (variant %d)", f.File, f.Variant)
+	case "labelclash":
+		return fmt.Sprintf("file %d ends with a benchmark whose name part repeats a label key (variant %d)", f.File, f.Variant)
 	case "field":
 		return fmt.Sprintf("unexpected field %q before file %d", f.FName, f.Pos)
 	case "abort":
@@ -648,7 +683,7 @@ func Gen(t *rapid.T) Case {
 	c.Follow = genUpload(t, 1, 2, false)
 	n := len(c.Target.Files)
 	switch kind := rapid.SampledFrom([]string{"trunc", "trunc", "trunc", "trunc", "trunc", "trunc", "trunc", "fs", "fs", "fs", "fs", "fs", "fs",
-		"nobench", "nobench", "longline", "longline", "field", "field", "abort", "abort", "none"}).Draw(t, "kind"); kind {
+		"nobench", "nobench", "longline", "longline", "labelclash", "labelclash", "field", "field", "abort", "abort", "none"}).Draw(t, "kind"); kind {
 	case "trunc":
 		bd := buildBody(uploadParts(c.Target, "t"))
 		off := 0
@@ -665,6 +700,8 @@ func Gen(t *rapid.T) Case {
 		c.Fault = Fault{Kind: "fs", K: uniform(t, N, "k"), Partial: rapid.Bool().Draw(t, "partial"), Sticky: rapid.Bool().Draw(t, "sticky")}
 	case "longline":
 		c.Fault = Fault{Kind: "longline", File: rapid.IntRange(0, n-1).Draw(t, "file"), Variant: rapid.IntRange(0, 5).Draw(t, "variant")}
+	case "labelclash":
+		c.Fault = Fault{Kind: "labelclash", File: rapid.IntRange(0, n-1).Draw(t, "file"), Variant: rapid.IntRange(0, 5).Draw(t, "variant")}
 	case "nobench":
 		c.Fault = Fault{Kind: "nobench", File: rapid.IntRange(0, n-1).Draw(t, "file"), Variant: rapid.IntRange(0, 2).Draw(t, "variant")}
 	case "field":
